@@ -52,8 +52,10 @@ type Plan struct {
 	Boxes           []string
 	Sessions        []string
 	CheckDBEachStep bool
-	MaxMsgs, MaxUID int // configured limits (C17)
-	Alls            []AllCfg
+	// ContinueAfterViewDrift: a behaviour in which a session's view left the model goes on and the mailboxes stay compared
+	ContinueAfterViewDrift bool
+	MaxMsgs, MaxUID        int // configured limits (C17)
+	Alls                   []AllCfg
 	// Scripts are cfg files whose Script constant fixes one schedule (witnesses of the known deviations):
 	// each yields one behaviour, replayed before the simulated ones (by shard 0).
 	Scripts []string
@@ -95,7 +97,8 @@ func ReplayAll(run *ev.Run, plan Plan, traces []*Trace, source string) {
 	g := NewGate()
 	defer g.Release()
 	drifts := 0
-	opt := Options{Sessions: plan.Sessions, Boxes: plan.Boxes, CheckDBEachStep: plan.CheckDBEachStep, MaxMsgs: plan.MaxMsgs, MaxUID: plan.MaxUID}
+	opt := Options{Sessions: plan.Sessions, Boxes: plan.Boxes, CheckDBEachStep: plan.CheckDBEachStep, MaxMsgs: plan.MaxMsgs, MaxUID: plan.MaxUID,
+		ContinueAfterViewDrift: plan.ContinueAfterViewDrift}
 	var pool *Pool
 	defer func() {
 		if pool != nil {
@@ -447,7 +450,7 @@ func runAll(run *ev.Run, plan Plan, ac AllCfg) bool {
 	// second pass: this shard's share is decoded in full
 	order := map[int]int{}
 	for i, t := range pick {
-		if i%n == shard {
+		if _, dup := order[t.line]; i%n == shard && !dup {
 			order[t.line] = len(order)
 		}
 	}
